@@ -70,143 +70,6 @@ Proof.
   specialize (H x Hi). lia.
 Qed.
 
-(* ------------------------------------------------------------------ the row loop *)
-Lemma stmt_loop_cons : forall r t ext cur max,
-  stmt_loop (r :: t) ext cur max =
-  match assign cur max r with
-  | AErr => ([], Failed)
-  | AGen c m id =>
-      match ext with
-      | Some O => ([], Failed)
-      | _ => let '(w, e) := stmt_loop t (option_map Nat.pred ext) c m in ((id, true) :: w, e)
-      end
-  | AExp m id =>
-      match ext with
-      | Some O => ([], Failed)
-      | _ => let '(w, e) := stmt_loop t (option_map Nat.pred ext) cur m in ((id, false) :: w, e)
-      end
-  end.
-Proof. reflexivity. Qed.
-
-Lemma stmt_loop_ext0 : forall rows cur max, rows <> [] ->
-  stmt_loop rows (Some O) cur max = ([], Failed).
-Proof.
-  intros [|r t] cur max H; [congruence|]. rewrite stmt_loop_cons.
-  destruct (assign cur max r); reflexivity.
-Qed.
-
-Lemma gen_class_cons : forall r t ext cur max,
-  gen_class (r :: t) ext cur max =
-  match ext with
-  | Some O => 0
-  | _ =>
-      let here := match r with
-                  | RNull => if 2 ^ 63 <=? cur + 1 then 3 else if max >? cur then 1 else 0
-                  | RInt _ => 0
-                  end in
-      if here =? 0 then
-        match assign cur max r with
-        | AErr => 0
-        | AGen c m _ => gen_class t (option_map Nat.pred ext) c m
-        | AExp m _ => gen_class t (option_map Nat.pred ext) cur m
-        end
-      else here
-  end.
-Proof. reflexivity. Qed.
-
-Definition gens_bounded (lo : Z) (w : list (Z * bool)) : Prop :=
-  forall x, In x w -> snd x = true -> lo < fst x < 2 ^ 63.
-
-Definition end_ok (max : Z) (w : list (Z * bool)) (e : stmt_end) : Prop :=
-  match e with
-  | Done m => max <= m /\ (forall x, In x w -> fst x <= m)
-  | Failed => True
-  end.
-
-Lemma loop_ok : forall rows ext cur max trp w e,
-  0 <= cur <= max ->
-  (forall x, In x trp -> fst x <= max) ->
-  fresh_increasing trp ->
-  gen_class rows ext cur max = 0 ->
-  stmt_loop rows ext cur max = (w, e) ->
-  fresh_increasing (trp ++ w) /\ gens_bounded cur w /\ end_ok max w e.
-Proof.
-  induction rows as [|r t IH]; intros ext cur max trp w e Hc Hle Hfi Hcl Hrun.
-  - cbn [stmt_loop] in Hrun. inversion Hrun; subst. rewrite app_nil_r.
-    split; [exact Hfi|]. split; [intros x []|]. cbn [end_ok]. split; [lia|intros x []].
-  - assert (Hstop : ext = Some O -> fresh_increasing (trp ++ w) /\ gens_bounded cur w /\ end_ok max w e).
-    { intros ->. rewrite stmt_loop_ext0 in Hrun by discriminate. inversion Hrun; subst.
-      rewrite app_nil_r. split; [exact Hfi|]. split; [intros x []|exact I]. }
-    rewrite gen_class_cons in Hcl. rewrite stmt_loop_cons in Hrun.
-    destruct r as [|v].
-    + (* NULL id: a value is generated *)
-      destruct (Z.leb_spec (2 ^ 63) (cur + 1)) as [Hbig|Hsmall].
-      { destruct ext as [[|k]|]; [apply Hstop; reflexivity | cbn in Hcl; discriminate Hcl ..]. }
-      destruct (Z.gtb_spec max cur) as [Hahead|Heq].
-      { destruct ext as [[|k]|]; [apply Hstop; reflexivity | cbn in Hcl; discriminate Hcl ..]. }
-      assert (Hmax : max = cur) by lia. subst max.
-      assert (Hasg : assign cur cur RNull = AGen (cur + 1) (cur + 1) (cur + 1)).
-      { unfold assign. cbv zeta.
-        assert (Hin : in_u 64 (cur + 1) = true) by (apply in_u_64; consts; lia).
-        rewrite Hin. rewrite wrap_s_small by lia.
-        destruct (Z.gtb_spec (cur + 1) cur); [reflexivity|lia]. }
-      rewrite Hasg in Hrun, Hcl.
-      assert (Hgo : forall ext', gen_class t ext' (cur + 1) (cur + 1) = 0 ->
-                forall w' e', stmt_loop t ext' (cur + 1) (cur + 1) = (w', e') ->
-                w = (cur + 1, true) :: w' -> e = e' ->
-                fresh_increasing (trp ++ w) /\ gens_bounded cur w /\ end_ok cur w e).
-      { intros ext' Hcl' w' e' Hrun' -> ->.
-        destruct (IH ext' (cur + 1) (cur + 1) (trp ++ [(cur + 1, true)]) w' e') as (F & G & E); try assumption.
-        - lia.
-        - intros x Hx. apply in_app_or in Hx. destruct Hx as [Hx|[<-|[]]]; [specialize (Hle x Hx); lia|cbn; lia].
-        - apply fi_snoc; [exact Hfi|]. intros _. split.
-          + eapply not_in_fst_le; [exact Hle|lia].
-          + intros g' Hg'. specialize (Hle _ Hg'). cbn in Hle. lia.
-        - split; [rewrite <- app_assoc in F; exact F|]. split.
-          + intros x [<-|Hx] Hs; [cbn; lia|]. specialize (G x Hx Hs). lia.
-          + destruct e' as [m|]; [|exact I]. destruct E as (E1 & E2). split; [lia|].
-            intros x [<-|Hx]; [cbn; lia|apply E2; exact Hx]. }
-      destruct ext as [[|k]|]; [apply Hstop; reflexivity | |].
-      * cbn [option_map Nat.pred] in *.
-        change (3 =? 0) with false in Hcl. cbv zeta in Hcl.
-        destruct (stmt_loop t (Some k) (cur + 1) (cur + 1)) as [w' e'] eqn:Hrun'.
-        inversion Hrun; subst. eapply Hgo; try reflexivity; try eassumption.
-        revert Hcl. destruct (Z.leb_spec (2 ^ 63) (cur + 1)); [lia|].
-        destruct (Z.gtb_spec cur cur); [lia|]. cbn. auto.
-      * cbn [option_map Nat.pred] in *. cbv zeta in Hcl.
-        destruct (stmt_loop t None (cur + 1) (cur + 1)) as [w' e'] eqn:Hrun'.
-        inversion Hrun; subst. eapply Hgo; try reflexivity; try eassumption.
-        revert Hcl. destruct (Z.leb_spec (2 ^ 63) (cur + 1)); [lia|].
-        destruct (Z.gtb_spec cur cur); [lia|]. cbn. auto.
-    + (* explicit id *)
-      unfold assign in Hrun, Hcl.
-      destruct (Z.ltb_spec v 0) as [Hneg|Hpos].
-      { inversion Hrun; subst. rewrite app_nil_r. split; [exact Hfi|]. split; [intros x []|exact I]. }
-      set (m' := if v >? max then v else max) in *.
-      assert (Hm' : max <= m' /\ v <= m') by (subst m'; destruct (Z.gtb_spec v max); lia).
-      assert (Hgo : forall ext', gen_class t ext' cur m' = 0 ->
-                forall w' e', stmt_loop t ext' cur m' = (w', e') ->
-                w = (v, false) :: w' -> e = e' ->
-                fresh_increasing (trp ++ w) /\ gens_bounded cur w /\ end_ok max w e).
-      { intros ext' Hcl' w' e' Hrun' -> ->.
-        destruct (IH ext' cur m' (trp ++ [(v, false)]) w' e') as (F & G & E); try assumption.
-        - lia.
-        - intros x Hx. apply in_app_or in Hx. destruct Hx as [Hx|[<-|[]]]; [specialize (Hle x Hx); lia|cbn; lia].
-        - apply fi_snoc; [exact Hfi|]. intros Hb. discriminate Hb.
-        - split; [rewrite <- app_assoc in F; exact F|]. split.
-          + intros x [<-|Hx] Hs; [cbn in Hs; discriminate Hs|]. exact (G x Hx Hs).
-          + destruct e' as [m|]; [|exact I]. destruct E as (E1 & E2). split; [lia|].
-            intros x [<-|Hx]; [cbn; lia|apply E2; exact Hx]. }
-      destruct ext as [[|k]|]; [apply Hstop; reflexivity | |].
-      * cbn [option_map Nat.pred] in *. cbv zeta in Hcl. change (0 =? 0) with true in Hcl. cbv iota in Hcl.
-        destruct (stmt_loop t (Some k) cur m') as [w' e'] eqn:Hrun'.
-        inversion Hrun; subst. eapply Hgo; try reflexivity; eassumption.
-      * cbn [option_map Nat.pred] in *. cbv zeta in Hcl. change (0 =? 0) with true in Hcl. cbv iota in Hcl.
-        destruct (stmt_loop t None cur m') as [w' e'] eqn:Hrun'.
-        inversion Hrun; subst. eapply Hgo; try reflexivity; eassumption.
-Qed.
-
-(* ------------------------------------------------------------------ rows written as given *)
 Lemma fi_app_explicit : forall w tr,
   fresh_increasing tr -> (forall x, In x w -> snd x = false) -> fresh_increasing (tr ++ w).
 Proof.
@@ -216,150 +79,6 @@ Proof.
     + apply fi_snoc; [exact F|]. intros Hb. specialize (H (v, b) (or_introl eq_refl)). cbn in H. congruence.
     + intros x Hx. apply H. right. exact Hx.
 Qed.
-
-Lemma bulk_written_explicit : forall rows ext x, In x (bulk_written rows ext) -> snd x = false.
-Proof.
-  induction rows as [|r t IH]; intros ext x Hin; [destruct Hin|].
-  cbn [bulk_written] in Hin. destruct ext as [[|k]|]; [destruct Hin| |]; destruct r as [|v].
-  - exact (IH _ _ Hin).
-  - destruct Hin as [<-|Hin]; [reflexivity|exact (IH _ _ Hin)].
-  - exact (IH _ _ Hin).
-  - destruct Hin as [<-|Hin]; [reflexivity|exact (IH _ _ Hin)].
-Qed.
-
-Lemma existsb_gt_false : forall (w : list (Z * bool)) ai,
-  existsb (fun x => fst x >? ai) w = false -> forall x, In x w -> fst x <= ai.
-Proof.
-  intros w ai Hex x Hx. destruct (fst x >? ai) eqn:Hg; [|lia].
-  assert (existsb (fun x0 : Z * bool => fst x0 >? ai) w = true) by (apply existsb_exists; exists x; split; assumption).
-  congruence.
-Qed.
-
-(* ------------------------------------------------------------------ one statement *)
-Definition le_all (m : Z) (tr : list (Z * bool)) : Prop := forall x, In x tr -> fst x <= m.
-Definition gens_pos (tr : list (Z * bool)) : Prop :=
-  forall x, In x tr -> snd x = true -> 1 <= fst x < 2 ^ 63.
-
-Lemma stmt_ok : forall ai rows ext tr0 ai' w ok,
-  0 <= ai -> le_all ai tr0 -> fresh_increasing tr0 -> gens_pos tr0 ->
-  stmt_class ai rows ext = 0 ->
-  insert_stmt ai rows ext = (ai', w, ok) ->
-  ai <= ai' /\ le_all ai' (tr0 ++ w) /\ fresh_increasing (tr0 ++ w) /\ gens_pos (tr0 ++ w).
-Proof.
-  intros ai rows ext tr0 ai' w ok Hai Hle Hfi Hgp Hcl Hst.
-  unfold stmt_class in Hcl. unfold insert_stmt in Hst.
-  destruct (Z.eqb_spec (gen_class rows ext ai ai) 0) as [Hg|Hg]; [|congruence].
-  destruct (stmt_loop rows ext ai ai) as [w' e] eqn:Hrun.
-  destruct (loop_ok rows ext ai ai tr0 w' e) as (F & G & E); try assumption; try lia.
-  assert (Hgp' : gens_pos (tr0 ++ w')).
-  { intros x Hx Hs. apply in_app_or in Hx. destruct Hx as [Hx|Hx]; [exact (Hgp x Hx Hs)|].
-    specialize (G x Hx Hs). lia. }
-  destruct e as [m|].
-  - inversion Hst; subst. cbn [end_ok] in E. destruct E as (E1 & E2).
-    assert (Hnew : (if (m >? 0) && (m >? ai) then m else ai) = m).
-    { destruct (Z.gtb_spec m 0); destruct (Z.gtb_spec m ai); cbn [andb]; lia. }
-    rewrite Hnew. split; [lia|]. split; [|split; assumption].
-    intros x Hx. apply in_app_or in Hx. destruct Hx as [Hx|Hx]; [specialize (Hle x Hx); lia|exact (E2 x Hx)].
-  - inversion Hst; subst. split; [lia|]. split; [|split; assumption].
-    intros x Hx. apply in_app_or in Hx. destruct Hx as [Hx|Hx]; [exact (Hle x Hx)|].
-    destruct (existsb (fun x0 : Z * bool => fst x0 >? ai') w) eqn:Hex; [discriminate Hcl|].
-    assert (Hall : forall y, In y w -> (fst y >? ai') = false).
-    { intros y Hy. destruct (fst y >? ai') eqn:Hy'; [|reflexivity].
-      assert (existsb (fun x0 : Z * bool => fst x0 >? ai') w = true) by (apply existsb_exists; exists y; split; assumption).
-      congruence. }
-    specialize (Hall x Hx). lia.
-Qed.
-
-(* ------------------------------------------------------------------ histories *)
-Lemma run_cons : forall ai o t,
-  run ai (o :: t) = let '(ai', w) := step ai o in let '(aif, tr) := run ai' t in (aif, w ++ tr).
-Proof. reflexivity. Qed.
-
-Lemma run_ok : forall h ai tr0 aif tr,
-  0 <= ai -> le_all ai tr0 -> fresh_increasing tr0 -> gens_pos tr0 ->
-  known_class_from ai h = 0 ->
-  run ai h = (aif, tr) ->
-  ai <= aif /\ le_all aif (tr0 ++ tr) /\ fresh_increasing (tr0 ++ tr) /\ gens_pos (tr0 ++ tr).
-Proof.
-  induction h as [|o t IH]; intros ai tr0 aif tr Hai Hle Hfi Hgp Hcl Hrun.
-  - cbn [run] in Hrun. inversion Hrun; subst. rewrite app_nil_r. split; [lia|]. split; [assumption|split; assumption].
-  - rewrite run_cons in Hrun.
-    destruct o as [rows ext|rows ext| | | | |];
-      try (cbn [step known_class_from] in Hrun, Hcl;
-           destruct (run ai t) as [aif' tr'] eqn:Hrun'; inversion Hrun; subst;
-           cbn [app]; eapply IH; eassumption).
-    2: { (* Bulk: explicit values at or below the counter *)
-      cbn [step known_class_from] in Hrun, Hcl.
-      destruct (existsb (fun x : Z * bool => fst x >? ai) (bulk_written rows ext)) eqn:Hex; [discriminate Hcl|].
-      destruct (run ai t) as [aif' tr'] eqn:Hrun'. inversion Hrun; subst.
-      destruct (IH ai (tr0 ++ bulk_written rows ext) aif tr') as (R1 & R2 & R3 & R4); try assumption.
-      - intros x Hx. apply in_app_or in Hx. destruct Hx as [Hx|Hx]; [exact (Hle x Hx)|].
-        exact (existsb_gt_false _ _ Hex x Hx).
-      - apply fi_app_explicit; [exact Hfi|]. intros x Hx. exact (bulk_written_explicit _ _ x Hx).
-      - intros x Hx Hs. apply in_app_or in Hx. destruct Hx as [Hx|Hx]; [exact (Hgp x Hx Hs)|].
-        rewrite (bulk_written_explicit _ _ x Hx) in Hs. discriminate Hs.
-      - rewrite <- app_assoc in R2, R3, R4. split; [lia|]. split; [assumption|split; assumption]. }
-    cbn [known_class_from] in Hcl.
-    destruct (Z.eqb_spec (stmt_class ai rows ext) 0) as [Hc|Hc]; [|congruence].
-    cbn [step] in Hrun, Hcl.
-    destruct (insert_stmt ai rows ext) as [[ai' w] ok] eqn:Hst. cbn [fst] in Hcl.
-    destruct (run ai' t) as [aif' tr'] eqn:Hrun'. inversion Hrun; subst.
-    destruct (stmt_ok ai rows ext tr0 ai' w ok) as (S1 & S2 & S3 & S4); try assumption.
-    destruct (IH ai' (tr0 ++ w) aif tr') as (R1 & R2 & R3 & R4); try assumption; try lia.
-    rewrite <- app_assoc in R2, R3, R4. split; [lia|]. split; [assumption|split; assumption].
-Qed.
-
-Lemma autoinc_invariant_l : forall h,
-  known_class h = 0 ->
-  0 <= counter h /\ le_all (counter h) (trace h) /\ fresh_increasing (trace h) /\ gens_pos (trace h).
-Proof.
-  intros h Hk. unfold counter, trace. destruct (run 0 h) as [aif tr] eqn:Hrun. cbn [fst snd].
-  destruct (run_ok h 0 [] aif tr) as (R1 & R2 & R3 & R4); try assumption; try lia.
-  - intros x [].
-  - exact fi_nil.
-  - intros x [].
-  - cbn [app] in *. split; [lia|]. split; [assumption|split; assumption].
-Qed.
-
-(* C12, on the model, for ALL histories outside the recorded defect classes *)
-Lemma autoinc_fresh_increasing_l : forall h,
-  known_class h = 0 -> fresh_increasing (trace h).
-Proof. intros h Hk. apply autoinc_invariant_l in Hk. tauto. Qed.
-
-(* the header counter is an upper bound of everything the column ever held *)
-Lemma autoinc_counter_dominates_l : forall h,
-  known_class h = 0 -> forall v b, In (v, b) (trace h) -> v <= counter h.
-Proof.
-  intros h Hk v b Hin. apply autoinc_invariant_l in Hk. destruct Hk as (_ & H & _).
-  exact (H (v, b) Hin).
-Qed.
-
-(* generated ids are positive i64 values: no wrap-around *)
-Lemma autoinc_no_wrap_l : forall h,
-  known_class h = 0 -> forall g, In (g, true) (trace h) -> 1 <= g < 2 ^ 63.
-Proof.
-  intros h Hk g Hin. apply autoinc_invariant_l in Hk. destruct Hk as (_ & _ & _ & H).
-  exact (H (g, true) Hin eq_refl).
-Qed.
-
-(* DELETE, BEGIN / COMMIT / ROLLBACK and reopening never touch the counter: dropping them from a
-   history changes neither the ids generated nor the final counter *)
-Lemma run_filter_insert : forall h ai, run ai h = run ai (filter is_insert h).
-Proof.
-  induction h as [|o t IH]; intros ai; [reflexivity|].
-  destruct o as [rows ext|rows ext| | | | |]; cbn [filter is_insert]; rewrite ?run_cons; cbn [step].
-  - destruct (insert_stmt ai rows ext) as [[ai' w] ok]. rewrite IH. reflexivity.
-  - rewrite IH. reflexivity.
-  - rewrite IH. destruct (run ai (filter is_insert t)); reflexivity.
-  - rewrite IH. destruct (run ai (filter is_insert t)); reflexivity.
-  - rewrite IH. destruct (run ai (filter is_insert t)); reflexivity.
-  - rewrite IH. destruct (run ai (filter is_insert t)); reflexivity.
-  - rewrite IH. destruct (run ai (filter is_insert t)); reflexivity.
-Qed.
-
-Lemma autoinc_other_ops_irrelevant_l : forall h,
-  trace h = trace (filter is_insert h) /\ counter h = counter (filter is_insert h).
-Proof. intros h. unfold trace, counter. rewrite <- run_filter_insert. split; reflexivity. Qed.
 
 (* ------------------------------------------------------------------ the checker decides the property *)
 Lemma existsb_fst_false : forall (pre : list (Z * bool)) g,
@@ -409,88 +128,6 @@ Lemma fresh_increasing_chk_correct_l : forall tr,
   fresh_increasing_chk tr = true <-> fresh_increasing tr.
 Proof. intros tr. unfold fresh_increasing_chk. rewrite fi_chk_rel. unfold fi_rel, fresh_increasing. cbn [app]. tauto. Qed.
 
-(* ------------------------------------------------------------------ the defect classes do break the property *)
-Definition w_class1 : list op := [Insert [RNull; RInt 2; RNull] None].
-Definition w_class2 : list op := [Insert [RNull; RNull] (Some 1%nat); Insert [RNull] None].
-Definition w_class3 : list op :=
-  [Insert [RNull] None; Insert [RInt 9223372036854775807] None; Insert [RNull] None].
-
-Definition w_class4 : list op := [Insert [RNull] None; Bulk [RInt 3] None; Insert [RNull; RNull] None].
-
-Lemma refuted_by_chk : forall h, fresh_increasing_chk (trace h) = false -> ~ fresh_increasing (trace h).
-Proof. intros h Hc Hf. apply fresh_increasing_chk_correct_l in Hf. congruence. Qed.
-
-Lemma autoinc_refuted_explicit_ahead_l :
-  exists h, known_class h = 1 /\ trace h = [(1, true); (2, false); (2, true)] /\ ~ fresh_increasing (trace h).
-Proof. exists w_class1. split; [vm_compute; reflexivity|]. split; [vm_compute; reflexivity|]. apply refuted_by_chk. vm_compute. reflexivity. Qed.
-
-Lemma autoinc_refuted_failed_statement_l :
-  exists h, known_class h = 2 /\ trace h = [(1, true); (1, true)] /\ ~ fresh_increasing (trace h).
-Proof. exists w_class2. split; [vm_compute; reflexivity|]. split; [vm_compute; reflexivity|]. apply refuted_by_chk. vm_compute. reflexivity. Qed.
-
-Lemma autoinc_refuted_i64_wrap_l :
-  exists h, known_class h = 3 /\
-    trace h = [(1, true); (9223372036854775807, false); (-9223372036854775808, true)] /\
-    ~ fresh_increasing (trace h).
-Proof. exists w_class3. split; [vm_compute; reflexivity|]. split; [vm_compute; reflexivity|]. apply refuted_by_chk. vm_compute. reflexivity. Qed.
-
-Lemma autoinc_refuted_bulk_explicit_l :
-  exists h, known_class h = 4 /\ trace h = [(1, true); (3, false); (2, true); (3, true)] /\ ~ fresh_increasing (trace h).
-Proof. exists w_class4. split; [vm_compute; reflexivity|]. split; [vm_compute; reflexivity|]. apply refuted_by_chk. vm_compute. reflexivity. Qed.
-
-(* ------------------------------------------------------------------ one row per statement:
-   only the i64 wrap remains *)
-Lemma stmt_class_single : forall ai rows ext, (length rows <= 1)%nat ->
-  stmt_class ai rows ext = 0 \/ stmt_class ai rows ext = 3.
-Proof.
-  intros ai rows ext Hlen. destruct rows as [|r [|r' t]]; [| |cbn [length] in Hlen; lia].
-  - left. unfold stmt_class. cbn [gen_class stmt_loop]. reflexivity.
-  - unfold stmt_class. rewrite gen_class_cons, stmt_loop_cons.
-    destruct ext as [[|k]|].
-    + left. cbn. destruct (assign ai ai r); reflexivity.
-    + destruct r as [|v].
-      * destruct (Z.leb_spec (2 ^ 63) (ai + 1)); [right; reflexivity|].
-        destruct (Z.gtb_spec ai ai); [lia|]. left.
-        change (0 =? 0) with true. cbv iota zeta.
-        destruct (assign ai ai RNull); cbn [gen_class option_map Nat.pred stmt_loop]; cbn.
-        all: try reflexivity.
-        all: destruct k; reflexivity.
-      * left. cbv zeta. change (0 =? 0) with true. cbv iota.
-        destruct (assign ai ai (RInt v)); cbn [gen_class option_map Nat.pred stmt_loop]; cbn.
-        all: try reflexivity.
-        all: destruct k; reflexivity.
-    + destruct r as [|v].
-      * destruct (Z.leb_spec (2 ^ 63) (ai + 1)); [right; reflexivity|].
-        destruct (Z.gtb_spec ai ai); [lia|]. left.
-        change (0 =? 0) with true. cbv iota zeta.
-        destruct (assign ai ai RNull); cbn [gen_class option_map Nat.pred stmt_loop]; cbn; reflexivity.
-      * left. cbv zeta. change (0 =? 0) with true. cbv iota.
-        destruct (assign ai ai (RInt v)); cbn [gen_class option_map Nat.pred stmt_loop]; cbn; reflexivity.
-Qed.
-
-Lemma known_class_single : forall h ai,
-  (forall rows ext, In (Insert rows ext) h -> (length rows <= 1)%nat) ->
-  known_class_from ai h = 0 \/ known_class_from ai h = 3 \/ known_class_from ai h = 4.
-Proof.
-  induction h as [|o t IH]; intros ai Hs; [left; reflexivity|].
-  assert (Ht : forall rows ext, In (Insert rows ext) t -> (length rows <= 1)%nat)
-    by (intros rows ext Hin; apply (Hs rows ext); right; exact Hin).
-  destruct o as [rows ext|rows ext| | | | |]; cbn [known_class_from]; try (apply IH; exact Ht).
-  - destruct (stmt_class_single ai rows ext) as [H0|H3]; [apply (Hs rows ext); left; reflexivity| |].
-    + rewrite H0. change (0 =? 0) with true. cbv iota. apply IH; exact Ht.
-    + rewrite H3. right. left. reflexivity.
-  - destruct (existsb (fun x : Z * bool => fst x >? ai) (bulk_written rows ext)); [right; right; reflexivity|].
-    apply IH; exact Ht.
-Qed.
-
-Lemma autoinc_single_row_statements_l : forall h,
-  single_row h -> known_class h <> 3 -> known_class h <> 4 -> fresh_increasing (trace h).
-Proof.
-  intros h Hs H3 H4. apply autoinc_fresh_increasing_l.
-  destruct (known_class_single h 0 Hs) as [H|[H|H]]; [exact H| |]; unfold known_class in H3, H4; congruence.
-Qed.
-
-(* ------------------------------------------------------------------ narrower id columns *)
 Lemma wrap_s_in_range : forall w x, 0 < w -> in_s w x = true -> wrap_s w x = x.
 Proof.
   intros w x Hw Hin. unfold in_s in Hin. unfold wrap_s.
@@ -502,33 +139,319 @@ Proof.
   rewrite Z.mod_small; [ring|]. rewrite H2. split; [|]; generalize dependent (2 ^ (w - 1)); intros; lia.
 Qed.
 
-Lemma trace_w_id : forall w h, 0 < w ->
-  forallb (fun x => in_s w (fst x)) (trace h) = true -> trace_w w h = trace h.
+
+(* ------------------------------------------------------------------ the column type's maximum *)
+Lemma col_bits_cases : forall w, col_bits w = 16 \/ col_bits w = 32 \/ col_bits w = 64.
+Proof. intros w. unfold col_bits. destruct (w =? 16); [tauto|]. destruct (w =? 32); tauto. Qed.
+
+Lemma limit_bounds : forall w, 0 < limit w < 2 ^ 63.
 Proof.
-  intros w h Hw Hall. unfold trace_w. rewrite forallb_forall in Hall.
-  rewrite <- (map_id (trace h)) at 2. apply map_ext_in. intros [v b] Hin.
-  specialize (Hall _ Hin). cbn [fst snd] in *. unfold stored. rewrite wrap_s_in_range by assumption. reflexivity.
+  intros w. unfold limit. destruct (col_bits_cases w) as [H|[H|H]]; rewrite H.
+  - change (2 ^ (16 - 1)) with 32768. consts. lia.
+  - change (2 ^ (32 - 1)) with 2147483648. consts. lia.
+  - change (2 ^ (64 - 1)) with (2 ^ 63). consts. lia.
 Qed.
 
-Lemma autoinc_fresh_increasing_stored_l : forall w h, 0 < w ->
-  known_class_w w h = 0 -> trace_w w h = trace h /\ fresh_increasing (trace_w w h).
+Lemma limit_in_range : forall w x, 0 <= x <= limit w -> in_s (col_bits w) x = true.
 Proof.
-  intros w h Hw Hk. unfold known_class_w in Hk. cbv zeta in Hk.
-  destruct (Z.eqb_spec (known_class h) 0) as [Hc|Hc]; [|congruence].
-  destruct (forallb (fun x : Z * bool => in_s w (fst x)) (trace h)) eqn:Hall; [|discriminate Hk].
-  rewrite (trace_w_id w h Hw Hall). split; [reflexivity|]. apply autoinc_fresh_increasing_l. exact Hc.
+  intros w x Hx. unfold limit in Hx. unfold in_s.
+  assert (Hp : 0 < 2 ^ (col_bits w - 1)) by (apply Z.pow_pos_nonneg; [lia|destruct (col_bits_cases w) as [H|[H|H]]; rewrite H; lia]).
+  apply andb_true_iff. split; [apply Z.leb_le|apply Z.ltb_lt]; lia.
 Qed.
 
-Definition w_class5 : list op :=
-  [Insert [RInt 2147483646] None; Insert [RNull] None; Insert [RNull] None].
+(* ------------------------------------------------------------------ the row loop *)
+Lemma match_ext : forall (A : Type) (ext : option nat) (a b : A),
+  ext <> Some O -> match ext with Some O => a | _ => b end = b.
+Proof. intros A [[|k]|] a b H; [congruence|reflexivity|reflexivity]. Qed.
 
-Lemma autoinc_refuted_narrow_column_l :
-  exists h, known_class_w 32 h = 5 /\
-    trace h = [(2147483646, false); (2147483647, true); (2147483648, true)] /\
-    trace_w 32 h = [(2147483646, false); (2147483647, true); (-2147483648, true)] /\
-    ~ fresh_increasing (trace_w 32 h).
+Lemma ext_dec : forall ext : option nat, {ext = Some O} + {ext <> Some O}.
+Proof. intros [[|k]|]; [left; reflexivity|right; discriminate|right; discriminate]. Qed.
+
+Lemma stmt_loop_cons : forall lim r t ext cur max hdr,
+  stmt_loop lim (r :: t) ext cur max hdr =
+  match assign lim cur max r with
+  | AErr => ([], Failed, hdr)
+  | AGen c m id =>
+      let hdr' := if m >? hdr then m else hdr in
+      match ext with
+      | Some O => ([], Failed, hdr')
+      | _ => let '(w, e, h) := stmt_loop lim t (option_map Nat.pred ext) c m hdr' in ((id, true) :: w, e, h)
+      end
+  | AExp c m id =>
+      let hdr' := if m >? hdr then m else hdr in
+      match ext with
+      | Some O => ([], Failed, hdr')
+      | _ => let '(w, e, h) := stmt_loop lim t (option_map Nat.pred ext) c m hdr' in ((id, false) :: w, e, h)
+      end
+  end.
+Proof. reflexivity. Qed.
+
+Definition le_all (m : Z) (tr : list (Z * bool)) : Prop := forall x, In x tr -> fst x <= m.
+Definition gens_in (lo hi : Z) (w : list (Z * bool)) : Prop :=
+  forall x, In x w -> snd x = true -> lo < fst x <= hi.
+Definition end_ok (h : Z) (e : stmt_end) : Prop :=
+  match e with Done m => m = h | Failed => True end.
+
+(* generation below the limit: cur, max and the header move together *)
+Lemma assign_null_ok : forall lim c, 0 <= c -> c + 1 <= lim -> lim < 2 ^ 63 ->
+  assign lim c c RNull = AGen (c + 1) (c + 1) (c + 1).
 Proof.
-  exists w_class5. split; [vm_compute; reflexivity|]. split; [vm_compute; reflexivity|].
-  split; [vm_compute; reflexivity|]. intros Hf. apply fresh_increasing_chk_correct_l in Hf.
-  vm_compute in Hf. discriminate Hf.
+  intros lim c Hc Hl Hlim. unfold assign. cbv zeta.
+  assert (Hin : in_u 64 (c + 1) = true) by (apply in_u_64; consts; lia).
+  rewrite Hin. replace (c + 1 <=? lim) with true by lia. cbn [andb].
+  rewrite wrap_s_small by lia. destruct (Z.gtb_spec (c + 1) c); [reflexivity|lia].
+Qed.
+
+(* ... and at the limit it is an error: no id is produced *)
+Lemma assign_null_overflow : forall lim cur max, lim < cur + 1 -> assign lim cur max RNull = AErr.
+Proof.
+  intros lim cur max H. unfold assign. cbv zeta.
+  replace (cur + 1 <=? lim) with false by lia. rewrite andb_false_r. reflexivity.
+Qed.
+
+Lemma loop_ok : forall lim rows ext c trp wr e h,
+  0 <= c -> lim < 2 ^ 63 ->
+  le_all c trp -> fresh_increasing trp ->
+  stmt_loop lim rows ext c c c = (wr, e, h) ->
+  fresh_increasing (trp ++ wr) /\ le_all h (trp ++ wr) /\ c <= h /\ gens_in c lim wr /\ end_ok h e.
+Proof.
+  intros lim. induction rows as [|r t IH]; intros ext c trp wr e h Hc Hlim Hle Hfi Hrun.
+  - cbn [stmt_loop] in Hrun. inversion Hrun; subst. rewrite app_nil_r.
+    split; [exact Hfi|]. split; [exact Hle|]. split; [lia|]. split; [intros x []|reflexivity].
+  - assert (Hnil : forall h', c <= h' -> wr = [] -> e = Failed -> h = h' ->
+              fresh_increasing (trp ++ wr) /\ le_all h (trp ++ wr) /\ c <= h /\ gens_in c lim wr /\ end_ok h e).
+    { intros h' Hh' -> -> ->. rewrite app_nil_r. split; [exact Hfi|]. split.
+      - intros x Hx. specialize (Hle x Hx). lia.
+      - split; [lia|]. split; [intros x []|exact I]. }
+    rewrite stmt_loop_cons in Hrun. destruct r as [|v].
+    + (* NULL id *)
+      destruct (Z_le_gt_dec (c + 1) lim) as [Hroom|Hfull].
+      * rewrite assign_null_ok in Hrun by assumption. cbv zeta in Hrun.
+        replace (c + 1 >? c) with true in Hrun by lia.
+        destruct (ext_dec ext) as [He|He].
+        { subst ext. inversion Hrun; subst. apply (Hnil (c + 1)); try reflexivity. lia. }
+        rewrite match_ext in Hrun by exact He.
+        destruct (stmt_loop lim t (option_map Nat.pred ext) (c + 1) (c + 1) (c + 1)) as [[w' e'] h'] eqn:Hrun'.
+        inversion Hrun; subst.
+        destruct (IH (option_map Nat.pred ext) (c + 1) (trp ++ [(c + 1, true)]) w' e h) as (F & L & C & G & E); try assumption; try lia.
+        { intros x Hx. apply in_app_or in Hx. destruct Hx as [Hx|[<-|[]]]; [specialize (Hle x Hx); lia|cbn; lia]. }
+        { apply fi_snoc; [exact Hfi|]. intros _. split.
+          - eapply not_in_fst_le; [exact Hle|lia].
+          - intros g' Hg'. specialize (Hle _ Hg'). cbn in Hle. lia. }
+        rewrite <- app_assoc in F, L. cbn [app] in F, L.
+        split; [exact F|]. split; [exact L|]. split; [lia|]. split; [|exact E].
+        intros x [<-|Hx] Hs; [cbn; lia|]. specialize (G x Hx Hs). lia.
+      * rewrite assign_null_overflow in Hrun by lia. injection Hrun as Hw0 He0 Hh0. apply (Hnil c); [lia|symmetry; exact Hw0|symmetry; exact He0|symmetry; exact Hh0].
+    + (* explicit id *)
+      unfold assign in Hrun.
+      destruct (Z.ltb_spec v 0) as [Hneg|Hpos].
+      { injection Hrun as Hw0 He0 Hh0. apply (Hnil c); [lia|symmetry; exact Hw0|symmetry; exact He0|symmetry; exact Hh0]. }
+      destruct (Z.gtb_spec v lim) as [Hbig|Hfit].
+      { injection Hrun as Hw0 He0 Hh0. apply (Hnil c); [lia|symmetry; exact Hw0|symmetry; exact He0|symmetry; exact Hh0]. }
+      set (c' := if v >? c then v else c) in *.
+      assert (Hc' : c <= c' /\ v <= c') by (subst c'; destruct (Z.gtb_spec v c); lia).
+      cbv zeta in Hrun.
+      assert (Hh : (if c' >? c then c' else c) = c') by (destruct (Z.gtb_spec c' c); lia).
+      rewrite Hh in Hrun.
+      destruct (ext_dec ext) as [He|He].
+      { subst ext. cbv iota in Hrun. injection Hrun as Hw0 He0 Hh0. apply (Hnil c'); [lia|symmetry; exact Hw0|symmetry; exact He0|symmetry; exact Hh0]. }
+      rewrite match_ext in Hrun by exact He.
+      destruct (stmt_loop lim t (option_map Nat.pred ext) c' c' c') as [[w' e'] h'] eqn:Hrun'.
+      inversion Hrun; subst.
+      destruct (IH (option_map Nat.pred ext) c' (trp ++ [(v, false)]) w' e h) as (F & L & C & G & E); try assumption; try lia.
+      { intros x Hx. apply in_app_or in Hx. destruct Hx as [Hx|[<-|[]]]; [specialize (Hle x Hx); lia|cbn; lia]. }
+      { apply fi_snoc; [exact Hfi|]. intros Hb. discriminate Hb. }
+      rewrite <- app_assoc in F, L. cbn [app] in F, L.
+      split; [exact F|]. split; [exact L|]. split; [lia|]. split; [|exact E].
+      intros x [<-|Hx] Hs; [cbn in Hs; discriminate Hs|]. specialize (G x Hx Hs). lia.
+Qed.
+
+(* every id an INSERT writes lies in 0 .. limit *)
+Lemma loop_range : forall lim rows ext cur max hdr wr e h,
+  lim < 2 ^ 63 ->
+  stmt_loop lim rows ext cur max hdr = (wr, e, h) ->
+  forall x, In x wr -> 0 <= fst x <= lim.
+Proof.
+  intros lim. induction rows as [|r t IH]; intros ext cur max hdr wr e h Hlim Hrun x Hx.
+  - cbn [stmt_loop] in Hrun. inversion Hrun; subst. destruct Hx.
+  - rewrite stmt_loop_cons in Hrun.
+    destruct (assign lim cur max r) as [c m id|c m id|] eqn:Ha; cbv zeta in Hrun.
+    + destruct (ext_dec ext) as [He|He]; [subst ext; inversion Hrun; subst; destruct Hx|].
+      rewrite match_ext in Hrun by exact He.
+      destruct (stmt_loop lim t (option_map Nat.pred ext) c m (if m >? hdr then m else hdr)) as [[w' e'] h'] eqn:Hrun'.
+      inversion Hrun; subst. destruct Hx as [<-|Hx]; [|eapply IH; eassumption].
+      destruct r as [|v]; unfold assign in Ha; cbv zeta in Ha.
+      * destruct (in_u 64 (cur + 1)) eqn:Hin; [|discriminate Ha].
+        destruct (Z.leb_spec (cur + 1) lim); [|discriminate Ha]. cbn [andb] in Ha. inversion Ha; subst.
+        apply in_u_64 in Hin. rewrite wrap_s_small by (consts; lia). cbn [fst]. lia.
+      * destruct (v <? 0); [discriminate Ha|]. destruct (v >? lim); discriminate Ha.
+    + destruct (ext_dec ext) as [He|He]; [subst ext; inversion Hrun; subst; destruct Hx|].
+      rewrite match_ext in Hrun by exact He.
+      destruct (stmt_loop lim t (option_map Nat.pred ext) c m (if m >? hdr then m else hdr)) as [[w' e'] h'] eqn:Hrun'.
+      inversion Hrun; subst. destruct Hx as [<-|Hx]; [|eapply IH; eassumption].
+      destruct r as [|v]; unfold assign in Ha; cbv zeta in Ha.
+      * destruct (in_u 64 (cur + 1) && (cur + 1 <=? lim)); discriminate Ha.
+      * destruct (Z.ltb_spec v 0); [discriminate Ha|]. destruct (Z.gtb_spec v lim); [discriminate Ha|].
+        inversion Ha; subst. cbn [fst]. lia.
+    + inversion Hrun; subst. destruct Hx.
+Qed.
+
+(* ------------------------------------------------------------------ one statement *)
+Definition gens_pos (w : Z) (tr : list (Z * bool)) : Prop :=
+  forall x, In x tr -> snd x = true -> 1 <= fst x <= limit w.
+
+Lemma stmt_ok : forall w ai rows ext tr0 ai' wr ok,
+  0 <= ai -> le_all ai tr0 -> fresh_increasing tr0 -> gens_pos w tr0 ->
+  insert_stmt w ai rows ext = (ai', wr, ok) ->
+  ai <= ai' /\ le_all ai' (tr0 ++ wr) /\ fresh_increasing (tr0 ++ wr) /\ gens_pos w (tr0 ++ wr).
+Proof.
+  intros w ai rows ext tr0 ai' wr ok Hai Hle Hfi Hgp Hst. unfold insert_stmt in Hst.
+  destruct (stmt_loop (limit w) rows ext ai ai ai) as [[wr' e] h] eqn:Hrun.
+  pose proof (limit_bounds w) as Hlim.
+  destruct (loop_ok (limit w) rows ext ai tr0 wr' e h) as (F & L & C & G & E); try assumption; try lia.
+  assert (Hgp' : gens_pos w (tr0 ++ wr')).
+  { intros x Hx Hs. apply in_app_or in Hx. destruct Hx as [Hx|Hx]; [exact (Hgp x Hx Hs)|].
+    specialize (G x Hx Hs). lia. }
+  destruct e as [m|].
+  - cbn [end_ok] in E. subst m. inversion Hst; subst.
+    assert (Hnew : (if (h >? 0) && (h >? h) then h else h) = h) by (destruct ((h >? 0) && (h >? h)); reflexivity).
+    rewrite Hnew. split; [lia|]. split; [exact L|]. split; assumption.
+  - inversion Hst; subst. split; [lia|]. split; [exact L|]. split; assumption.
+Qed.
+
+(* ------------------------------------------------------------------ insert_batch *)
+Lemma bulk_written_explicit : forall rows x, In x (bulk_written rows) -> snd x = false.
+Proof.
+  induction rows as [|[|v] t IH]; intros x Hin; cbn [bulk_written] in Hin.
+  - destruct Hin.
+  - exact (IH x Hin).
+  - destruct Hin as [<-|Hin]; [reflexivity|exact (IH x Hin)].
+Qed.
+
+Lemma bulk_written_le_max : forall rows x, In x (bulk_written rows) -> fst x <= bulk_max rows.
+Proof.
+  induction rows as [|[|v] t IH]; intros x Hin; cbn [bulk_written bulk_max] in *.
+  - destruct Hin.
+  - exact (IH x Hin).
+  - destruct Hin as [<-|Hin]; [cbn; lia|]. specialize (IH x Hin). lia.
+Qed.
+
+(* ------------------------------------------------------------------ histories *)
+Lemma run_cons : forall w ai o t,
+  run w ai (o :: t) = let '(ai', wr) := step w ai o in let '(aif, tr) := run w ai' t in (aif, wr ++ tr).
+Proof. reflexivity. Qed.
+
+Lemma run_ok : forall w h ai tr0 aif tr,
+  0 <= ai -> le_all ai tr0 -> fresh_increasing tr0 -> gens_pos w tr0 ->
+  run w ai h = (aif, tr) ->
+  ai <= aif /\ le_all aif (tr0 ++ tr) /\ fresh_increasing (tr0 ++ tr) /\ gens_pos w (tr0 ++ tr).
+Proof.
+  intros w. induction h as [|o t IH]; intros ai tr0 aif tr Hai Hle Hfi Hgp Hrun.
+  - cbn [run] in Hrun. inversion Hrun; subst. rewrite app_nil_r. split; [lia|]. split; [assumption|split; assumption].
+  - rewrite run_cons in Hrun.
+    destruct o as [rows ext|rows| | | | |];
+      try (cbn [step] in Hrun;
+           destruct (run w ai t) as [aif' tr'] eqn:Hrun'; inversion Hrun; subst;
+           cbn [app]; eapply IH; eassumption).
+    + cbn [step] in Hrun.
+      destruct (insert_stmt w ai rows ext) as [[ai' wr] ok] eqn:Hst.
+      destruct (run w ai' t) as [aif' tr'] eqn:Hrun'. inversion Hrun; subst.
+      destruct (stmt_ok w ai rows ext tr0 ai' wr ok) as (S1 & S2 & S3 & S4); try assumption.
+      destruct (IH ai' (tr0 ++ wr) aif tr') as (R1 & R2 & R3 & R4); try assumption; try lia.
+      rewrite <- app_assoc in R2, R3, R4. split; [lia|]. split; [assumption|split; assumption].
+    + cbn [step] in Hrun. cbv zeta in Hrun.
+      set (ai' := if bulk_max rows >? ai then bulk_max rows else ai) in *.
+      assert (Hai' : ai <= ai' /\ bulk_max rows <= ai') by (subst ai'; destruct (Z.gtb_spec (bulk_max rows) ai); lia).
+      destruct (run w ai' t) as [aif' tr'] eqn:Hrun'. inversion Hrun; subst.
+      destruct (IH ai' (tr0 ++ bulk_written rows) aif tr') as (R1 & R2 & R3 & R4); try assumption; try lia.
+      * intros x Hx. apply in_app_or in Hx. destruct Hx as [Hx|Hx]; [specialize (Hle x Hx); lia|].
+        pose proof (bulk_written_le_max rows x Hx). lia.
+      * apply fi_app_explicit; [exact Hfi|]. intros x Hx. exact (bulk_written_explicit _ x Hx).
+      * intros x Hx Hs. apply in_app_or in Hx. destruct Hx as [Hx|Hx]; [exact (Hgp x Hx Hs)|].
+        rewrite (bulk_written_explicit _ x Hx) in Hs. discriminate Hs.
+      * rewrite <- app_assoc in R2, R3, R4. split; [lia|]. split; [assumption|split; assumption].
+Qed.
+
+Lemma autoinc_invariant_l : forall w h,
+  0 <= counter w h /\ le_all (counter w h) (trace w h) /\ fresh_increasing (trace w h) /\ gens_pos w (trace w h).
+Proof.
+  intros w h. unfold counter, trace. destruct (run w 0 h) as [aif tr] eqn:Hrun. cbn [fst snd].
+  destruct (run_ok w h 0 [] aif tr) as (R1 & R2 & R3 & R4); try assumption; try lia.
+  - intros x [].
+  - exact fi_nil.
+  - intros x [].
+  - cbn [app] in *. split; [lia|]. split; [assumption|split; assumption].
+Qed.
+
+(* C12, on the model, for ALL histories *)
+Lemma autoinc_fresh_increasing_l : forall w h, fresh_increasing (trace w h).
+Proof. intros w h. pose proof (autoinc_invariant_l w h). tauto. Qed.
+
+(* the header counter is an upper bound of everything the column ever held *)
+Lemma autoinc_counter_dominates_l : forall w h v b, In (v, b) (trace w h) -> v <= counter w h.
+Proof.
+  intros w h v b Hin. destruct (autoinc_invariant_l w h) as (_ & H & _). exact (H (v, b) Hin).
+Qed.
+
+(* generated ids are positive and within the id column's type *)
+Lemma autoinc_no_wrap_l : forall w h g, In (g, true) (trace w h) -> 1 <= g <= limit w.
+Proof.
+  intros w h g Hin. destruct (autoinc_invariant_l w h) as (_ & _ & _ & H). exact (H (g, true) Hin eq_refl).
+Qed.
+
+(* at the type's maximum a generating INSERT is an error: nothing written, counter unchanged *)
+Lemma autoinc_overflow_is_error_l : forall w ai rows,
+  limit w <= ai -> insert_stmt w ai (RNull :: rows) None = (ai, [], false).
+Proof.
+  intros w ai rows H. unfold insert_stmt. rewrite stmt_loop_cons.
+  rewrite assign_null_overflow by lia. reflexivity.
+Qed.
+
+(* DELETE, BEGIN / COMMIT / ROLLBACK and reopening never touch the counter *)
+Lemma run_filter_insert : forall w h ai, run w ai h = run w ai (filter is_insert h).
+Proof.
+  intros w. induction h as [|o t IH]; intros ai; [reflexivity|].
+  destruct o as [rows ext|rows| | | | |]; cbn [filter is_insert]; rewrite ?run_cons; cbn [step].
+  - destruct (insert_stmt w ai rows ext) as [[ai' wr] ok]. rewrite IH. reflexivity.
+  - cbv zeta. rewrite IH. reflexivity.
+  - rewrite IH. destruct (run w ai (filter is_insert t)); reflexivity.
+  - rewrite IH. destruct (run w ai (filter is_insert t)); reflexivity.
+  - rewrite IH. destruct (run w ai (filter is_insert t)); reflexivity.
+  - rewrite IH. destruct (run w ai (filter is_insert t)); reflexivity.
+  - rewrite IH. destruct (run w ai (filter is_insert t)); reflexivity.
+Qed.
+
+Lemma autoinc_other_ops_irrelevant_l : forall w h,
+  trace w h = trace w (filter is_insert h) /\ counter w h = counter w (filter is_insert h).
+Proof. intros w h. unfold trace, counter. rewrite <- run_filter_insert. split; reflexivity. Qed.
+
+(* ------------------------------------------------------------------ what the column stores *)
+Lemma run_range : forall w h ai x,
+  forallb (bulk_fits w) h = true -> In x (snd (run w ai h)) -> in_s (col_bits w) (fst x) = true.
+Proof.
+  intros w. induction h as [|o t IH]; intros ai x Hfit Hx; [destruct Hx|].
+  cbn [forallb] in Hfit. apply andb_true_iff in Hfit. destruct Hfit as (Ho & Ht).
+  rewrite run_cons in Hx.
+  destruct (step w ai o) as [ai' wr] eqn:Hstep. destruct (run w ai' t) as [aif tr] eqn:Hrun.
+  cbn [snd] in Hx. apply in_app_or in Hx. destruct Hx as [Hx|Hx].
+  - destruct o as [rows ext|rows| | | | |]; cbn [step] in Hstep; try (inversion Hstep; subst; destruct Hx).
+    + unfold insert_stmt in Hstep.
+      destruct (stmt_loop (limit w) rows ext ai ai ai) as [[wr' e] h'] eqn:Hl.
+      pose proof (limit_bounds w) as Hlim.
+      assert (Hr : forall y, In y wr' -> 0 <= fst y <= limit w) by (eapply loop_range; [|exact Hl]; lia).
+      destruct e; inversion Hstep; subst; apply limit_in_range; apply Hr; exact Hx.
+    + inversion Hstep; subst. cbn [bulk_fits] in Ho. rewrite forallb_forall in Ho. exact (Ho x Hx).
+  - apply (IH ai' x Ht). rewrite Hrun. exact Hx.
+Qed.
+
+Lemma autoinc_fresh_increasing_stored_l : forall w h,
+  forallb (bulk_fits w) h = true -> trace_w w h = trace w h /\ fresh_increasing (trace_w w h).
+Proof.
+  intros w h Hfit.
+  assert (Hid : trace_w w h = trace w h).
+  { unfold trace_w. rewrite <- (map_id (trace w h)) at 2. apply map_ext_in. intros [v b] Hin.
+    cbn [fst snd]. unfold stored. rewrite wrap_s_in_range; [reflexivity| |].
+    - destruct (col_bits_cases w) as [H|[H|H]]; rewrite H; lia.
+    - exact (run_range w h 0 (v, b) Hfit Hin). }
+  rewrite Hid. split; [reflexivity|]. apply autoinc_fresh_increasing_l.
 Qed.
